@@ -458,11 +458,12 @@ def bounded_candidates(run, repo, tables):
     cp_slots = sorted(tables['nasa']['powers'])
     npts = 15
     n = 0
-    for pos, errs in (((1, 7, 9), (3, 2, 1)), ((5, 7, 13), (2, 1, 3)), ((1, 7, 9), (1, 2, 3))):
+    for pos, errs in (((1, 7, 9), (3, 2, 1)), ((5, 7, 13), (2, 1, 3)), ((1, 7, 9), (1, 2, 3)), ((11, 5, 7), (3, 2, 1))):
         T = grid(100, 1500, npts)
         tvals = [_num(x) for x in T.items]
         cands = [tvals[k] for k in pos]
         win = pos[errs.index(min(errs))]
+        small = [k for k in pos if min(k + 1, npts - 1 - k) < 5][0]
         ranks = {'T_ref': 450, 'T_ref2': 1250}
         I = Interp(repo, order=RankOrder(ranks, const_ranks=True, fallback=_fallback_rank))
         bounded_data(I)
@@ -549,9 +550,8 @@ def bounded_candidates(run, repo, tables):
         run.check(not why, 'DATAFLOW.T_mid', 'nasa.Nasa.from_data', key,
                   '%s - break temperature and both coefficient sets must come from the candidate with the smallest '
                   'error, T[%d] = %s K (errors of the candidates in the order %s; candidate T[%d] leaves %d of %d '
-                  'data points on one side)' % ('; '.join(why), win, tvals[win], errs,
-                                                 pos[0] if pos[0] < 5 else pos[-1],
-                                                 pos[0] + 1 if pos[0] < 5 else npts - 1 - pos[-1], npts),
+                  'data points on one side)' % ('; '.join(why), win, tvals[win], errs, small,
+                                                 min(small + 1, npts - 1 - small), npts),
                   owner.module, fn,
                   sample='Nasa.from_data(T=linspace(100, 1500, 15), T_mid=%s) errors %s -> T_mid=%s'
                   % ([str(c_) for c_ in cands], errs, tvals[win]))
@@ -922,7 +922,7 @@ def shomate_pipeline(run, repo, tables):
             a = sp.attrs.get('a')
             H = evaluator(I, repo, 'shomate', 'HoRT', a, Tref, units)
             S = evaluator(I, repo, 'shomate', 'SoR', a, Tref, units)
-            shared = ' (after a second species was fitted: the two species share state)' if not which else ''
+            shared = ' (read after a second species was fitted in the same process)' if not which else ''
             run.check(same(H, Href), 'ANCHOR.H', 'shomate.Shomate.from_data', key,
                       'H/RT(T_ref) = %s, not HoRT_ref%s' % (show(H), shared), owner.module, fn,
                       sample='Shomate.from_data: H(T_ref)=HoRT_ref for symbolic units' + which)
@@ -1118,7 +1118,14 @@ def check(run, repo):
         'grid it passes (one temperature at a time when the model does not vectorise). (D) the break temperature '
         'that Nasa.from_data chooses itself (degenerate data; T_mid=None) lies strictly inside the span of the data; '
         'the bounds read from a fitted Nasa9 species (1-3 segments) are that span; Cp data that vanish at one '
-        'temperature only are fitted (Shomate).')
+        'temperature only are fitted (Shomate, NASA-7). (E) every pipeline instance fits a SECOND species in the same '
+        'interpreter (same data, its own reference): both species are anchored and continuous afterwards, so state '
+        'that survives from one fit to the next (a zero row allocated once, a memoised result) is visible; NASA-9 '
+        'continuity is decided for T_ref in every interval under the ordering min(T) < breaks below < T_ref < breaks '
+        'above < max(T). (F) T_mid as a list on a grid of 15 written-out temperatures where a candidate leaves fewer '
+        'than five points on one side (candidates in and out of order, smallest error first / middle / last): break, '
+        'a_low and a_high are those of the candidate with the smallest error, fitted to exactly the points below '
+        'resp. above it.')
     run.assumptions = ['np.polyfit returns coefficients highest power first; curve_fit returns one value per parameter '
                        'of the model function after the first; a masked sub-vector of generic data is generic and '
                        'has more entries than any small constant it is compared with',
@@ -1128,10 +1135,20 @@ def check(run, repo):
                        'monotone in the candidate (growing, falling), not for other orders of the errors',
                        'bounded instances on concrete grids: degenerate Cp data on 15, 16 and 200 equally spaced '
                        'temperatures (the break chosen by Nasa.from_data itself); Cp zero at the first of 15 '
-                       'temperatures only (Shomate; the NASA fits of such data need np.extract on bounded vectors, '
-                       'which the fit model does not have)']
+                       'temperatures only (Shomate, NASA-7; NASA-9 selects its intervals with `&` of two boolean '
+                       'arrays, which the interpreter refuses on written-out arrays); candidate lists on 15 written-out '
+                       'temperatures: np.extract keeps the entries whose mask entry is True, the mean of a residual is '
+                       'an uninterpreted positive number attributed to the candidate whose two fits it was computed '
+                       'from, four orders of the errors',
+                       'two species per process, the second with the same data and options as the first; its reference '
+                       'temperature lies on the same side of T_mid (NASA-7) resp. in the first interval (NASA-9, where '
+                       'the known anchor findings concern the other intervals)']
     run.undecided = ['fit quality (tracks the source / reproduces a same-family polynomial): least-squares and '
                      'Nelder-Mead behaviour on data',
+                     'how good the break is that the screening of candidates prefers: the mean squared error that '
+                     'ranks the candidates is an uninterpreted positive number, WHAT it is the mean of is not examined '
+                     '(a screening error computed from a wrong polynomial still yields an anchored, continuous '
+                     'two-segment least-squares fit, only a worse one; no threshold follows from the property)',
                      'break temperatures strictly inside the range for user-supplied T_mid (no validation exists)']
     tables = slot_tables(run, repo)
     run.sample({'slot_tables': {k: {'powers': {i: str(p) for i, p in v['powers'].items()},
@@ -1242,11 +1259,15 @@ MUTANTS = [
                (N, '        warn(warn_msg, RuntimeWarning)\n    if len(T_high) < 5:',
                 '        warn(warn_msg, RuntimeWarning)\n        if skip_small:\n            return None\n'
                 '    if len(T_high) < 5:')]},
-    {'name': 'NASA-7: candidates that leave fewer than 5 points above them end the screening',
+    {'name': 'NASA-7: candidates that leave fewer than 5 points above them are not screened',
      'expect': ('DATAFLOW.T_mid', 'Nasa.from_data'),
-     'edits': [(N, '        (mse, a_low, a_high) = _get_CpoR_MSE(T=T, CpoR=CpoR, T_mid=T_m)',
-                '        if len(T_mid) > 1 and len(np.extract(condition=(T > T_m), arr=T)) < 5:\n            break\n'
-                '        (mse, a_low, a_high) = _get_CpoR_MSE(T=T, CpoR=CpoR, T_mid=T_m)')]},
+     'edits': [(N, 'def _get_CpoR_MSE(T, CpoR, T_mid):', 'def _get_CpoR_MSE(T, CpoR, T_mid, skip_small=False):'),
+               (N, '        (mse, a_low, a_high) = _get_CpoR_MSE(T=T, CpoR=CpoR, T_mid=T_m)',
+                '        fit = _get_CpoR_MSE(T=T, CpoR=CpoR, T_mid=T_m, skip_small=len(T_mid) > 1)\n'
+                '        if fit is None:\n            continue\n        (mse, a_low, a_high) = fit'),
+               (N, '        warn(warn_msg, RuntimeWarning)\n\n    # Fit the polynomials',
+                '        warn(warn_msg, RuntimeWarning)\n        if skip_small:\n            return None\n\n'
+                '    # Fit the polynomials')]},
     {'name': 'NASA-7: one vanishing heat capacity sends the species down the zero-Cp shortcut',
      'expect': ('REF.fit', 'Nasa.from_data'),
      'edits': [(N, '''    if all([np.isclose(x, 0.) for x in CpoR]) \\
